@@ -183,10 +183,12 @@ def run(R):
         for s_ in stmts:
             if isinstance(s_, ast.If):
                 k, subj, pos = q.atom_test(s_.test)
-                if k == "isinstance" and subj[0] == par:
+                if k == "isinstance" and subj[0] == par and pos:
                     arms[subj[1]] = s_
-                elif k == "isnone" and subj == par:
+                elif k == "isnone" and subj == par and pos:
                     arms["None"] = s_
+                elif k in ("isinstance", "isnone"):
+                    R.violation("C15.STRUCT", ra.qualname + ":polarity", R.site(ra, s_), "the kind test `%s` is negated: the arm handles every object except the kind it was written for" % q.src(s_.test))
                 # an if/elif chain continues in orelse
                 if s_.orelse:
                     collect(s_.orelse)
@@ -204,6 +206,12 @@ def run(R):
         a = arms.get(kind)
         rs = [n.value for st_ in a.body for n in ast.walk(st_) if isinstance(n, ast.Return)] if a is not None else []
         return rs[0] if len(rs) == 1 else None
+    r = ret_of("Awaitable")
+    R.check(r is not None and isinstance(r, ast.Await) and q.src(r.value) == par, "C15.STRUCT", ra.qualname + ":awaitable-shape", R.site(ra),
+            "an awaitable resolves to its awaited result", "the Awaitable arm returns `%s`" % (q.src(r) if r is not None else None))
+    r = ret_of("ConstFuture")
+    R.check(r is not None and q.src(r) == "%s.value()" % par, "C15.STRUCT", ra.qualname + ":const-shape", R.site(ra),
+            "a ConstFuture resolves to its value", "the ConstFuture arm returns `%s`" % (q.src(r) if r is not None else None))
     gl = "await _gather([resolve_awaitables(item) for item in %s])" % par
     r = ret_of("list")
     R.check(r is not None and q.src(r) == gl, "C15.STRUCT", ra.qualname + ":list-shape", R.site(ra), "a list resolves to the list of its resolved members, in order",
@@ -312,6 +320,31 @@ def run(R):
     # of a bound method passes the instance: the binder rules of C09
     from . import c09
     c09.run(R, "C15.CALLCONV")
+    # the asyncio twin is built lazily: it is never called while still None, and a user-supplied one is never replaced
+    for cq in ("decorators.PureAsyncDecorator", "decorators.AsyncProxyDecorator"):
+        m = repo.cls(cq).methods.get("asyncio")
+        R.need(m is not None, "anchor vanished: %s.asyncio" % cq)
+        mc = cfg_of(m)
+        builds = [n for n in mc.nodes if n.kind == "stmt" and isinstance(n.ast, ast.Assign) and any(q.src(t) == "self.asyncio_fn" for t in n.ast.targets)]
+        uses = [n for n, c in kit.call_sites(m, lambda c: q.src(c.func) == "self.asyncio_fn")]
+        R.need(builds and uses, "idiom: %s.asyncio no longer builds/calls self.asyncio_fn" % cq)
+
+        def given(nd, want=True):
+            if nd.kind != "test":
+                return None
+            k, s, pos = q.atom_test(nd.ast)
+            if k == "isnone" and s == "self.asyncio_fn":
+                return ("F" if pos else "T") if want else ("T" if pos else "F")
+            return None
+        p = mc.find_path([mc.entry], uses, N, cut_nodes=builds, keep_edge=lambda e: not (given(mc.nodes[e.src]) is not None and e.label == given(mc.nodes[e.src])))
+        R.check(p is None, "C15.ENGINES", m.qualname + ":built", R.site(m), "self.asyncio_fn is called only after it was given or built",
+                "self.asyncio_fn can be called while it is None", mc.fmt_path(p) if p else None)
+        p = kit.path_avoiding_guard(mc, builds, lambda nd: given(nd, False), N)
+        R.check(p is None, "C15.ENGINES", m.qualname + ":kept", R.site(m), "a given asyncio_fn is never replaced by the converted generator",
+                "an asyncio_fn given to the decorator can be overwritten by the converted generator", mc.fmt_path(p) if p else None)
+        conv = [c for c in q.calls(m.node) if q.call_name(c) == "convert_asynq_to_async"]
+        R.check(len(conv) == 1 and [q.src(a) for a in conv[0].args] == ["self.fn"], "C15.ENGINES", m.qualname + ":source", R.site(m),
+                "the twin is converted from the decorated function itself", "the asyncio twin is not built from self.fn")
     R.require_min("C15.ENGINES", 7)
     R.require_min("C15.MODE", 5)
 
